@@ -850,10 +850,16 @@ class Exec:
                 if key in env.memo:
                     ctx.memo_hits += 1
                     return env.memo[key]
+                if ("active", key) in env.onstack:
+                    # the same control state (block, live locals, heap incl. stream position) is reached again while its own
+                    # continuation is being explored: the loop makes no progress, i.e. the real code never terminates on this path.
+                    # Reported like a panic outcome so that the condition is composed along the path and a witness can be replayed.
+                    return Outcome([], [(True, "DIVERGES: the control state at bb%d of %s repeats without progress (endless loop)" % (bb, func.name))], [])
                 cnt = env.onstack.get(bb, 0)
                 if cnt >= ctx.loop_bound:
                     raise Unwind("loop at bb%d of %s exceeds the unwinding bound %d" % (bb, func.name, ctx.loop_bound))
                 env.onstack[bb] = cnt + 1
+                env.onstack[("active", key)] = True
                 # the summary is shared by every path that reaches this control state, so it must not be pruned with
                 # the path condition of the first visitor: explore it under `True` (plus the global assumptions)
                 st2 = State(st.frame, func, dict(st.locals), self.copy_heap(st.heap), True)
@@ -861,6 +867,7 @@ class Exec:
                     res = self.explore(st2, bb, env, skip_cut=True, at_start=at_start)
                 finally:
                     env.onstack[bb] = cnt
+                    env.onstack.pop(("active", key), None)
                 if not st.heap:
                     res = self.compress(res)
                 env.memo[key] = res
